@@ -30,6 +30,7 @@ def run(ctx):
     check_accessors(ctx, prog)
     check_strshare(ctx, prog)
     check_release(ctx, prog, tags)
+    check_numeq(ctx, prog)
     # the element lifetime rules of Array, on the instantiations Var's containers use (Array<Var>, Array<char>, the Dic storage):
     # removing / inserting children must construct and destroy each child exactly once
     n_l = C01.check_lifetime(ctx, prog)
@@ -540,3 +541,86 @@ def check_release(ctx, prog, tags):
                       '%s: the %s at line %s is reachable while the Var still holds a %s (no free() on that path): the string / container it owned is leaked' % (
                           f['q'] + f.get('sig', ''), what, e.get('l'), '/'.join(bad[1]) if bad else ''))
     ctx.floor('C04.release', n, 5)
+
+
+# ------------------------------------------------------------------ C04.numeq
+
+def check_numeq(ctx, prog):
+    """C04.numeq: the numeric comparison overloads operator==(int / double / float) compare numerically.  Each overload is
+    interpreted (scansim) with the tag and the active union member bound, for a grid of stored values x argument values:
+    the result must be (stored value == argument) in exact arithmetic, and false for every non-numeric tag."""
+    import scansim, struct
+    en = dict((c['n'], c['v']) for c in prog.enums['asl::Var::Type']['consts'])
+    ints = [0, 1, -1, 3, -3, 7, 2 ** 31 - 1, -2 ** 31, 2 ** 24 + 1]
+    dbls = [0.0, 0.5, 3.0, 3.5, -0.75, -3.0, 2.5e9, 7.0, 16777217.0, 1e-3]
+    f32 = lambda v: struct.unpack('f', struct.pack('f', v))[0]
+    n = 0
+    # the overloads the Var-to-Var comparison delegates its numeric case to (the property speaks about comparing Vars; an
+    # overload that only user code calls with a raw number is outside it)
+    vv = [g for g in prog.fn('asl::Var::operator==', '(const asl::Var &)const') if g.get('body')]
+    used = set()
+    for g in vv:
+        for c in fn_exprs(g):
+            if c.get('k') == 'call' and c.get('pq') == 'asl::Var::operator==' and c.get('sig') != g.get('sig'):
+                used.add(c.get('sig'))
+    ctx.info['numeric_overloads_used_by_var_equality'] = sorted(x for x in used if x)
+    for f in prog.functions:
+        if f.get('pq') != 'asl::Var::operator==' or not f.get('body') or len(f['params']) != 1 or f.get('sig') not in used:
+            continue
+        pt = T(f, f['params'][0]['t'])
+        if pt.get('bool') or not (pt.get('int') or pt.get('flt')) or pt.get('ptr') or pt.get('ref'):
+            continue
+        n += 1
+        ctx.analysed(f)
+        role = 'operator==(%s):numeric equality' % pt.get('s')
+        if pt.get('int'):
+            others = [v for v in ints if -2 ** (pt['bits'] - 1) <= v < 2 ** (pt['bits'] - 1)]
+        elif pt.get('s') == 'float':
+            others = [f32(v) for v in dbls] + [float(v) for v in ints if f32(float(v)) == float(v)]
+        else:
+            others = dbls + [float(v) for v in ints]
+        bad = und = None
+        runs = 0
+        for tname, member, vals in (('INT', '_i', ints), ('NUMBER', '_d', dbls + [float(v) for v in ints]), ('FLOAT', '_d', [f32(v) for v in dbls])):
+            if tname not in en:
+                continue
+            for sv in vals:
+                for ov in others:
+                    r = scansim.Run(prog, f, {}, mems={'_type': en[tname], member: sv})
+                    r.vars[f['params'][0]['id']] = ov
+                    runs += 1
+                    try:
+                        got = r.run()
+                    except (scansim.Unsupported, scansim.OOB, TypeError) as u:
+                        und = 'tag %s, stored %r, argument %r: %s' % (tname, sv, ov, u)
+                        break
+                    want = int(sv == ov)
+                    if (1 if got else 0) != want:
+                        bad = 'a Var holding the %s %r compares %s to the %s %r' % (tname, sv, 'equal' if got else 'unequal', pt.get('s'), ov)
+                        break
+                if bad or und:
+                    break
+            if bad or und:
+                break
+        if not (bad or und):
+            for tname in ('NONE', 'NUL', 'BOOL', 'STRING', 'SSTRING', 'ARRAY', 'OBJ'):
+                if tname not in en:
+                    continue
+                r = scansim.Run(prog, f, {}, mems={'_type': en[tname]})
+                r.vars[f['params'][0]['id']] = others[0]
+                runs += 1
+                try:
+                    got = r.run()
+                except (scansim.Unsupported, scansim.OOB, TypeError) as u:
+                    und = 'tag %s: %s' % (tname, u)
+                    break
+                if got:
+                    bad = 'a Var of type %s compares equal to the number %r' % (tname, others[0])
+                    break
+        ctx.evaluations += runs
+        if und:
+            ctx.undecided('C04.numeq', f['pq'], role, fwhere(f), 'outside the interpreted fragment: %s' % und)
+        else:
+            ctx.check(bad is None, 'C04.numeq', f['pq'], role, fwhere(f), 'interpreted for %d (tag, stored value, argument) combinations: result = exact numeric equality' % runs,
+                      'Var::operator==(%s): %s' % (pt.get('s'), bad))
+    ctx.floor('C04.numeq', n, 1)
